@@ -10,9 +10,18 @@ def site (cls method callee : String) (idx : Nat := 0) : Option Site :=
 def arg (cls method callee param : String) (idx : Nat := 0) : Option String :=
   (site cls method callee idx).bind (fun s => s.bind.lookup param)
 
-/-- every listed parameter receives the listed expression -/
+/-- every listed parameter receives the listed expression; a parameter that the site leaves at the callee's literal
+    default (not bound at all, and listed by the translator among the parameters at their default there) is accepted ONLY when the
+    listed value is a literal (`None`, `1`, `False`, a quoted string) — writing a default out, or leaving it out, is the same call (the default VALUES
+    themselves are pinned by `Props/WiringDefaults*`) -/
+def isLiteral (v : String) : Bool :=
+  v == "None" || v == "True" || v == "False" || v.startsWith "'" || v.startsWith "\""
+    || (v.toList.all (fun c => c.isDigit || c == '.' || c == '-' || c == 'e') && !v.isEmpty)
+
 def args (cls method callee : String) (want : List (String × String)) (idx : Nat := 0) : Bool :=
-  want.all (fun pv => arg cls method callee pv.1 idx == some pv.2)
+  want.all (fun pv => arg cls method callee pv.1 idx == some pv.2
+    || (isLiteral pv.2 && arg cls method callee pv.1 idx == none
+        && ((site cls method callee idx).map (fun s => s.dflt.contains pv.1)).getD false))
 
 /-- exactly the listed parameters are passed (nothing else, e.g. no stray positional argument); the order in
     which the call spells them is immaterial (a positional argument rewritten as a keyword is the same call) -/
